@@ -349,7 +349,7 @@ func init() { register("c18_prepend_f1", checkF1) }
 func TestC18_Random(t *testing.T) {
 	rec := evid.New("C18", "c18_random", "rapid: error chains of depth 1..5 from a grammar (leaves: errors.New, io.EOF, transport/protocol/application exceptions and a foreign type exposing TypeId, with any int32 type id incl. the named codes and empty/non-UTF-8/format-like texts; wrappers: fmt.Errorf %w, NewProtocolExceptionWithErr, PrependError with any prefix), a second chain and fresh leaves as errors.Is targets, plus exceptions built to have equal/unequal (type id, text) for every protocol node; oracle = kind table, type id, text = prefix+original, Unwrap identity, and a model of errors.Is; the class (empty prefix, foreign error with empty text) is excluded as known finding F1 and counted; non-trivial = chain of depth >= 2 mixing >= 2 kinds")
 	defer rec.Flush()
-	runRapid(t, rec, "c18_err_chain", evid.Pick(150000, 400000), genErrChainCase, checkErrChain)
+	runRapid(t, rec, "c18_err_chain", evid.Pick(150000, 1500000), genErrChainCase, checkErrChain)
 }
 
 func TestC18_Table(t *testing.T) {
